@@ -184,25 +184,37 @@ Fixpoint dec_acc (fuel : nat) (n : N) (acc : list N) : list N :=
   end.
 Definition decN (n : N) : list N := dec_acc (S (N.size_nat n)) n [].
 
-Fixpoint render_path_tl (p : path) : list N :=
-  match p with [] => [] | i :: r => 46 :: decN (N.of_nat i) ++ render_path_tl r end.
-Definition render_path (p : path) : list N :=
-  match p with [] => [114] (* r *) | i :: r => decN (N.of_nat i) ++ render_path_tl r end.
+(* positions are rendered as preorder indices (a path of a deeply nested node has hundreds of elements) *)
+Fixpoint sizeN (t : tree) : N :=
+  match t with Node _ _ cs => 1 + fold_right (fun c acc => sizeN c + acc) 0 cs end.
+Fixpoint sizes_before (i : nat) (cs : list tree) : N :=
+  match i, cs with
+  | S i', c :: cs' => sizeN c + sizes_before i' cs'
+  | _, _ => 0
+  end.
+Fixpoint pre_index (t : tree) (p : path) : N :=
+  match p with
+  | [] => 0
+  | i :: p' =>
+    1 + sizes_before i (children t) +
+    match nth_error (children t) i with Some c => pre_index c p' | None => 0 end
+  end.
 
-Definition render_ans (q : option N) (fp : option path) : list N :=
+Definition render_ans (t : tree) (q : option N) (fp : option path) : list N :=
   (match q with Some l => decN l | None => [45] end) ++ [64] ++
-  (match fp with Some p => render_path p | None => [45] end).
+  (match fp with Some p => decN (pre_index t p) | None => [45] end).
 
 Fixpoint join_sp (xs : list (list N)) : list N :=
   match xs with [] => [] | [x] => x | x :: r => x ++ 32 :: join_sp r end.
 
-(* per node in preorder: "<label of the node returned by the parent query or ->@<position of the first registration of its label or ->" *)
+(* per node in preorder: "<label of the node returned by the parent query or ->@<preorder index of the node whose
+   registration is the first one for this node's label, or ->" *)
 Definition answers (fx : bool) (t : tree) : list N :=
   match build fx t with
   | None => [69] (* E *)
   | Some a =>
     let es := visit fx [] t in
-    join_sp (map (fun l => render_ans (query a l) (first_reg_in es l)) (labels_preorder t))
+    join_sp (map (fun l => render_ans t (query a l) (first_reg_in es l)) (labels_preorder t))
   end.
 
 (* ---------- reading a tree from the flat line format of the drivers ---------- *)
